@@ -30,3 +30,4 @@ def run(prog, rep):
     _rs.run_stale_size(prog, rep)
     from ..rules import r_key as _rkx
     _rkx.run_handles_only(prog, rep)
+    r_pair.run_pos_pass(prog, rep)
